@@ -13,6 +13,8 @@ SERVICE_GEN_CFG = "users=4,init=30,taxnum=1,taxden=2,slashnum=1,slashden=2,maxti
 SERVICE_MC_CFG = "users=3,init=12,taxnum=1,taxden=2,slashnum=1,slashden=2,maxtimeout=2,minmult=1,mindep=2,wait=2"
 SERVICE_SCN_CFG = "users=3,init=50,taxnum=1,taxden=2,slashnum=1,slashden=2,maxtimeout=2,minmult=1,mindep=2,wait=2"
 
+SERVICE_MULTI_CFG = "users=3,init=50,taxnum=1,taxden=2,slashnum=0,slashden=1,maxtimeout=2,minmult=1,mindep=2,wait=2"
+
 SERVICE_RND = T(
     [dict(n=6, len=30, procs=5, cfg="users=4,init=40,taxnum=1,taxden=4,slashnum=1,slashden=2"),
      dict(n=6, len=30, procs=5, cfg="users=5,init=100,taxnum=1,taxden=10,slashnum=1,slashden=10,maxtimeout=4,minmult=2,mindep=3,maxctx=6"),
@@ -25,7 +27,9 @@ SERVICE_GEN = T([dict(cfg="GEN_Service.cfg", num=8, depth=20, seeds=6)],
 SERVICE_SCN = [dict(file="scenarios/service_cover.ndjson", cfg=SERVICE_SCN_CFG),   # every required antecedent
                dict(file="scenarios/service_F4.ndjson", cfg=SERVICE_SCN_CFG),
                dict(file="scenarios/service_F21.ndjson", cfg=SERVICE_SCN_CFG),
-               dict(file="scenarios/service_F20.ndjson", cfg=SERVICE_SCN_CFG)]   # regression: fixed by 6da0f9d
+               dict(file="scenarios/service_F20.ndjson", cfg=SERVICE_SCN_CFG),   # regression: fixed by 6da0f9d
+               # several contexts of one consumer due in one end-block, funds for two of them (handling order matters)
+               dict(file="scenarios/service_multictx_funds.ndjson", cfg=SERVICE_MULTI_CFG)]
 # MC_Service_D: a provider priced in a denom that needs an exchange rate (no feed: context paused; was F20), 5 heights
 SERVICE_MC = T([dict(cfg="MC_Service.cfg", timeout=1500, heap="4g"), dict(cfg="MC_Service_D.cfg", timeout=900, heap="4g")],
                # thorough: 9 heights / timeouts 1-2 (one context); two concurrent contexts (rank orders, consumer
@@ -35,7 +39,11 @@ SERVICE_MC = T([dict(cfg="MC_Service.cfg", timeout=1500, heap="4g"), dict(cfg="M
 
 # histories recorded for the cross-module checks C11 / C12: plain transactions only (module-owned contexts
 # are driven by keeper calls from the harness' observation hook, which a byte-for-byte replay cannot repeat)
-RECORD = [dict(binary="service", n=T(3, 12), len=30, cfg="users=4,init=40,taxnum=1,taxden=4,slashnum=1,slashden=2,mods=0")]
+RECORD = [dict(binary="service", n=T(3, 12), len=30, cfg="users=4,init=40,taxnum=1,taxden=4,slashnum=1,slashden=2,mods=0"),
+          # four end-blocks in which 4-6 contexts of one consumer fall due with funds for exactly two of them:
+          # the order in which the end-blocker handles due contexts decides who is charged and who is paused
+          dict(binary="service", mode="replay", **{"in": "scenarios/service_multictx_funds.ndjson"}, n=1, len=1,
+               cfg=SERVICE_MULTI_CFG)]
 
 _ASSUME = ["TLC 1.8, SANY, CommunityModules Json", "Go toolchain, cosmos-sdk x/bank",
            "harness projection functions (raw prefix scans with the exported key constructors)",
